@@ -25,6 +25,7 @@ open KV.Bits KV.Score KV.Arpa KV.Binary
 /-- `NodeRange { begin, end }` -/
 abbrev Node := Nat × Nat
 
+def load8 (mem byteOff : Nat) : Nat := (mem >>> (8 * byteOff)) % 2^8
 def load32 (mem byteOff : Nat) : Nat := (mem >>> (8 * byteOff)) % 2^32
 def load64 (mem byteOff : Nat) : Nat := (mem >>> (8 * byteOff)) % 2^64
 
